@@ -59,7 +59,7 @@ fn render_with<E: DeserializeError + std::fmt::Display>(first: &First, loc: &Pat
     with_loc(loc, &origin, &mut |l| {
         let e: E = match first {
             First::Foreign(token) => {
-                take_cf_content(E::error::<SimValue>(None, ErrorKind::Unexpected { msg: token.clone() }, l))
+                take_cf_content(E::error::<SimValue>(None, ErrorKind::Unexpected { msg: crate::parties::user_shown(token) }, l))
             }
             First::Kind(k) => match k {
                 KindSnap::IncorrectValueKind { actual, accepted } => {
